@@ -289,6 +289,12 @@ pub uninterp spec fn rec_spec<T>(next: T, prev: [Option<usize>; 2]) -> Result<No
 pub fn __rec<T>(chance_infosets: &mut CT, player_infosets: &mut PT, single_infosets: &mut ST, next: T, prev_infosets: [Option<usize>; 2]) -> (r: Result<Node, GameError>)
     ensures r == rec_spec(next, prev_infosets),
 { unimplemented!() }
+// (same, for the arm that holds the single-action table concretely; the recursion's own effect on the
+// tables is not part of this arm's obligation)
+#[verifier::external_body]
+pub fn __rec_s<I, A, T>(chance_infosets: &mut CT, player_infosets: &mut PT, single_infosets: &mut [&mut HashMap<I, A>; 2], next: T, prev_infosets: [Option<usize>; 2]) -> (r: Result<Node, GameError>)
+    ensures r == rec_spec(next, prev_infosets), final(single_infosets)[0]@ == old(single_infosets)[0]@, final(single_infosets)[1]@ == old(single_infosets)[1]@,
+{ unimplemented!() }
 // compact::OccupiedEntry as far as init_recurse uses it: the index and the value stored under the key
 #[verifier::external_body]
 #[verifier::reject_recursive_types(V)]
@@ -367,6 +373,53 @@ pub fn __abs_single_action<I, A, T>(chance_infosets: &mut CT, player_infosets: &
 pub fn __abs_decision<I, A, T>(chance_infosets: &mut CT, player_infosets: &mut PT, single_infosets: &mut ST, num: PlayerNum, infoset: I, actions: Vec<A>, nexts: Vec<T>, prev: [Option<usize>; 2]) -> (r: Result<Node, GameError>)
     ensures r == decision_spec(num, infoset, actions@, nexts@, prev),
 { unimplemented!() }
+// std::collections::HashMap entry API as far as the single-action arm uses it (assumed contracts): the
+// map is seen through a ghost view; `entry(k)` is Occupied exactly when k is present, a Vacant entry
+// that is `insert`ed adds the binding (what happens to the map is a prophecy of the entry's use:
+// standard for entry APIs), an Occupied entry read with `get` changes nothing
+#[verifier::external_body]
+#[verifier::reject_recursive_types(K)]
+#[verifier::reject_recursive_types(V)]
+pub struct HashMap<K, V> { _p: core::marker::PhantomData<(K, V)> }
+pub mod hash_map {
+    use super::*;
+    #[verifier::external_body]
+    #[verifier::reject_recursive_types(K)]
+    #[verifier::reject_recursive_types(V)]
+    pub struct OccupiedEntry<'a, K, V> { _p: core::marker::PhantomData<&'a (K, V)> }
+    #[verifier::external_body]
+    #[verifier::reject_recursive_types(K)]
+    #[verifier::reject_recursive_types(V)]
+    pub struct VacantEntry<'a, K, V> { _p: core::marker::PhantomData<&'a (K, V)> }
+    #[verifier::reject_recursive_types(K)]
+    #[verifier::reject_recursive_types(V)]
+    pub enum Entry<'a, K, V> { Occupied(OccupiedEntry<'a, K, V>), Vacant(VacantEntry<'a, K, V>) }
+    impl<'a, K, V> OccupiedEntry<'a, K, V> {
+        pub uninterp spec fn stored(&self) -> V;
+        #[verifier::external_body]
+        pub fn get(&self) -> (r: &V) ensures *r == self.stored() { unimplemented!() }
+    }
+    impl<'a, K, V> VacantEntry<'a, K, V> {
+        #[verifier::prophetic]
+        pub uninterp spec fn inserted(&self) -> Option<V>;
+        #[verifier::external_body]
+        pub fn insert(self, v: V) -> (r: &'a mut V) ensures self.inserted() == Some(v) { unimplemented!() }
+    }
+}
+impl<K, V> HashMap<K, V> {
+    pub uninterp spec fn view(&self) -> Map<K, V>;
+    #[verifier::external_body]
+    pub fn entry(&mut self, k: K) -> (r: hash_map::Entry<'_, K, V>)
+        ensures match r {
+            hash_map::Entry::Occupied(e) => old(self)@.contains_key(k) && e.stored() == old(self)@[k] && final(self)@ == old(self)@,
+            hash_map::Entry::Vacant(e) => !old(self)@.contains_key(k) && final(self)@ == (match e.inserted() { Some(v) => old(self)@.insert(k, v), None => old(self)@ }),
+        },
+    { unimplemented!() }
+}
+// `&A != &A` on the user's action type: the negation of its ==, taken to be equality of the abstract values
+pub axiom fn ax_action_ne<A: PartialEq>()
+    ensures <&A as PartialEqSpec<&A>>::obeys_eq_spec(),
+        forall|a: &A, b: &A| #[trigger] <&A as PartialEqSpec<&A>>::eq_spec(&a, &b) == (*a == *b);
 // `*info.actions != *actions` / `*data.probs != *probs`: slice comparison, element by element with the
 // element type's == (assumed to be equality of the abstract values: Eq coherence of user types; for
 // f64 the IEEE ==, under which a stored NaN never compares equal)
@@ -539,6 +592,44 @@ match actions.len() {
                     _ => __abs_decision(chance_infosets, player_infosets, single_infosets, player_num, infoset, actions, nexts, prev_infosets),
                 }
 }
+
+// ---- extracted from src/lib.rs: impl Game / fn init_recurse ----
+pub fn init_recurse__single_action_node<I, A: PartialEq, T>(mut actions: Vec<A>, mut nexts: Vec<T>, player_num: PlayerNum, infoset: I, prev_infosets: [Option<usize>; 2], chance_infosets: &mut CT, player_infosets: &mut PT, single_infosets: &mut [&mut HashMap<I, A>; 2]) -> (out: Result<Node, GameError>)
+    requires
+        actions@.len() == 1, nexts@.len() == 1,
+    ensures
+        // a single-action node is no decision: its only action is remembered per infoset (it must be the same
+        // action wherever the infoset occurs) and construction continues below it with the players'
+        // memories UNCHANGED (single-action nodes are exempt from perfect recall)
+        ({ let m0 = (match player_num { PlayerNum::One => old(single_infosets)[0]@, PlayerNum::Two => old(single_infosets)[1]@ });
+           m0.contains_key(infoset) && m0[infoset] != actions@[0] ==> out is Err && out->Err_0 == GameError::ActionsNotEqual }), // @ob C11.V.init_recurse.single_action_same
+        ({ let m0 = (match player_num { PlayerNum::One => old(single_infosets)[0]@, PlayerNum::Two => old(single_infosets)[1]@ });
+           let m1 = (match player_num { PlayerNum::One => final(single_infosets)[0]@, PlayerNum::Two => final(single_infosets)[1]@ });
+           !(m0.contains_key(infoset) && m0[infoset] != actions@[0]) ==> out == rec_spec(nexts@[0], prev_infosets)
+               && m1 == (if m0.contains_key(infoset) { m0 } else { m0.insert(infoset, actions@[0]) }) }), // @ob C11.V.init_recurse.single_action_recorded_once
+{
+proof { ax_action_ne::<A>(); }
+let ghost a0 = actions@[0];
+let ghost n0 = nexts@[0];
+let ghost m0 = (match player_num { PlayerNum::One => single_infosets[0]@, PlayerNum::Two => single_infosets[1]@ });
+
+                        let action = actions.pop().unwrap();
+                        match player_num.ind_mut(single_infosets).entry(infoset) {
+                            hash_map::Entry::Occupied(ent) => {
+                                if ent.get() != &action {
+                                    return Err(GameError::ActionsNotEqual);
+                                }
+                            }
+                            hash_map::Entry::Vacant(ent) => {
+                                ent.insert(action);
+                            }
+                        };
+                        let next = nexts.pop().unwrap();
+                        __rec_s(chance_infosets, player_infosets, single_infosets,
+                            next,
+                            prev_infosets,
+                        )
+                    }
 
 
 // vacuity canary: must be REJECTED by the verifier (an inconsistent axiom set would accept it)
